@@ -24,6 +24,7 @@ GEN2TR = {
     "ImportPipeline_gen": ("translate_import", "regenerate"),
     "ExportPipeline_gen": ("translate_export", "regenerate"),
     "Ctor_gen": ("translate_ctor", "regenerate"),
+    "Accessors_gen": ("translate_accessors", "regenerate"),
 }
 
 
